@@ -397,6 +397,10 @@ class FSInterposer:
         def open_(file, mode="r", *a, **k):
             if isinstance(file, int) or not fs._mine(file) or not any(c in mode for c in "wax+"):
                 return o["open"](file, mode, *a, **k)
+            if "b" in mode and not a and "buffering" not in k:
+                # adversarial but legal environment: written data stays in the process's buffer until flush() / close()
+                # (Python only guarantees that much), so a process death loses everything that was not flushed
+                k = dict(k, buffering=1 << 26)
             fh = fs._event("open:" + mode, file, lambda: o["open"](file, mode, *a, **k))
             return WFile(file, fh)
 
